@@ -715,3 +715,46 @@ Proof.
   intros [H _]. specialize (H "{""a"":{""b"":1}}"%string). cbn in H. rewrite Hget in H. vm_compute in H. discriminate H.
 Qed.
 Print Assumptions decoder_link_refuted_where_a_path_ends_at_an_object.
+
+(* ---- round 5: an anchored literal in the in-process regular-expression line filter (seed C09-e) ---- *)
+From Qryn Require model.PromRegex proofs.InternalEngineRegexProofs.
+Module RX := PromRegex.
+Section C09_ANCHORED.
+  Variable V : Type.
+  Variables (v0 v1 : V) (vadd vdiv : V -> V -> V) (vltb vleb veqb : V -> V -> bool) (vofZ : Z -> V).
+  Variable panic_kills : bool.
+  Variable fpf : lbls -> N.
+  Variable re_match : string -> string -> bool.
+  Variable pfloat : string -> option V.
+  Variable parse : N -> string -> option lbls.
+  Variable tmpl : N -> lbls -> option string.
+  Notation run_stage := (run_stage V v0 v1 vadd vdiv vltb vleb veqb vofZ panic_kills fpf re_match pfloat parse tmpl).
+
+  (* `|~ "^L$"` / `!~ "^L$"` run in process: whenever the regexp oracle answers for this pattern what RE2 search defines for
+     ^L$ (C17's executable meaning model/PromRegex.v: what Go's regexp.MatchString and ClickHouse's match() compute), the stage
+     keeps, for every batching, exactly the entries whose line IS L (resp. is not L) and every error entry -- not the lines
+     that merely contain L, which is what a fast path through regexp.LiteralPrefix ("complete" for ^L$) answers. *)
+  Theorem anchored_literal_line_filter_keeps_exactly_the_equal_lines : forall c pat L bs,
+    let r := RX.RCat RX.RBol (RX.RCat (RX.re_seq (RX.re_lits L)) RX.REol) in
+    RX.re_print r = pat ->
+    (forall s, re_match pat s = RX.re_search r s) ->
+    List.concat (run_stage c (SLineFilter V LfRe pat) bs)
+      = filter (fun e => negb (errk_eqb (e_err V e) ENone) || String.eqb L (e_msg V e)) (List.concat bs) /\
+    List.concat (run_stage c (SLineFilter V LfNotRe pat) bs)
+      = filter (fun e => negb (errk_eqb (e_err V e) ENone) || negb (String.eqb L (e_msg V e))) (List.concat bs).
+  Proof.
+    intros c pat L bs r _ Hre.
+    split; cbn [InternalEngine.run_stage]; rewrite wrap_filter, concat_map_filter; apply filter_ext; intros e;
+      unfold line_keep; rewrite Hre; unfold r; rewrite InternalEngineRegexProofs.anchored_literal_is_equality; reflexivity.
+  Qed.
+End C09_ANCHORED.
+Print Assumptions anchored_literal_line_filter_keeps_exactly_the_equal_lines.
+
+(* hypotheses met (the pattern text of the tree is ^error$; the oracle = the RE2 meaning), and the substring reading refuted:
+   the line "errors" contains the literal and is not matched by ^error$ *)
+Example anchored_literal_hypotheses_met :
+  let r := RX.RCat RX.RBol (RX.RCat (RX.re_seq (RX.re_lits "error")) RX.REol) in
+  RX.re_print r = "^error$"%string /\
+  map (RX.re_search r) ["error"; "errors"; "noerror"; "terror_x"; ""]%string = [true; false; false; false; false] /\
+  map (fun s => containsb s "error") ["error"; "errors"; "noerror"; "terror_x"; ""]%string = [true; true; true; true; false].
+Proof. cbv zeta. split; [reflexivity|]. split; vm_compute; reflexivity. Qed.
